@@ -66,6 +66,9 @@ pub struct ACase {
     /// is wrongly left pending is observed as pending, not rescued by the end of the stream)
     #[serde(default)]
     pub main_owner: bool,
+    /// every task is polled with its one waker (as an executor does) instead of a fresh one per poll
+    #[serde(default)]
+    pub same_waker: bool,
     pub unique: bool,
     pub initial: u64,
     pub tasks: Vec<TaskSpec>,
@@ -363,6 +366,7 @@ async fn run_task(tid: usize, ops: Vec<AOp>, mut owner: Option<Owner>, mut sub: 
 
 struct Task {
     fut: Option<Pin<Box<dyn Future<Output = ()>>>>,
+    own: Option<(Arc<Flag>, std::task::Waker)>,
     flag: Option<Arc<Flag>>,
     finished: bool,
     polls: u32,
@@ -435,7 +439,7 @@ pub fn run_async_case(case: &ACase) -> Outcome {
                 spec.owners += 1;
             }
             let fut: Pin<Box<dyn Future<Output = ()>>> = Box::pin(run_task(tid, t.ops.clone(), owner, sub, sh.clone()));
-            tasks.push(Task { fut: Some(fut), flag: None, finished: false, polls: 0, holds_owner });
+            tasks.push(Task { fut: Some(fut), own: None, flag: None, finished: false, polls: 0, holds_owner });
         }
         drop(uniq);
         let mut main_owner = if case.main_owner && !case.unique { root } else { drop(root); None };
@@ -443,6 +447,7 @@ pub fn run_async_case(case: &ACase) -> Outcome {
             spec.owners += 1;
         }
 
+        let same_waker = case.same_waker;
         let poll_task = |tasks: &mut Vec<Task>, i: usize, sim_steps: &mut u64, fp: &mut Fingerprint, counters: &mut Counters, contended: &mut u64| {
             let t = &mut tasks[i];
             if !t.live() {
@@ -454,7 +459,13 @@ pub fn run_async_case(case: &ACase) -> Outcome {
             }
             let was_unwoken = t.flag.as_ref().map_or(false, |f| !f.is_woken());
             let h0 = sh.hist.borrow().len();
-            let (flag, wk) = wake::fresh();
+            let (flag, wk) = if same_waker {
+                let (f, w) = t.own.get_or_insert_with(wake::fresh).clone();
+                f.clear();
+                (f, w)
+            } else {
+                wake::fresh()
+            };
             let mut cx = Context::from_waker(&wk);
             t.polls += 1;
             let r = t.fut.as_mut().unwrap().as_mut().poll(&mut cx);
@@ -701,5 +712,5 @@ pub fn gen_async_case(rng: &mut Rng) -> ACase {
             _ => AStep::Settle,
         })
         .collect();
-    ACase { main_owner: !unique && rng.chance(1, 2), unique, initial: 1, tasks, steps }
+    ACase { main_owner: !unique && rng.chance(1, 2), same_waker: rng.chance(1, 2), unique, initial: 1, tasks, steps }
 }
